@@ -267,6 +267,13 @@ def run(ctx) -> None:
                   "config._parse_cfg_file_patterns: the patterns of an entry are a one-shot iterator",
                   f"`{unparse(top)[:80]}`: for a glob entry that matches several files only the first file gets the patterns, the others an exhausted iterator - the same entry in a TOML config gives every file its patterns",
                   loc=fpf.loc(y), witness={"setup.cfg": "[bumpver:file_patterns]\nsrc/mod_*/__init__.py =\n    __version__ = \"{version}\""})
+        edits = [c for c in ast.walk(expr) if isinstance(c, ast.Call) and isinstance(c.func, ast.Attribute)
+                 and (c.func.attr in ("replace", "removeprefix", "removesuffix", "translate", "lower", "upper", "casefold", "expandtabs")
+                      or (c.func.attr in ("strip", "rstrip", "lstrip") and (c.args or c.keywords)))]
+        ctx.check("R5", not edits, "_parse_cfg_file_patterns: a line is trimmed of white space only (its text is the pattern, as a TOML string would be)",
+                  "config._parse_cfg_file_patterns: the text of a pattern line is edited beyond trimming white space",
+                  f"`{unparse(edits[0])[:80] if edits else ''}`: the pattern read from setup.cfg differs from the same text in a TOML array (e.g. a trailing comma or quote that belongs to the pattern is lost)",
+                  loc=fpf.loc(y), witness={"setup.cfg": "[bumpver:file_patterns]\nsetup.py =\n    version=\"{version}\","})
         ctx.check("R5", not positional, "_parse_cfg_file_patterns: all lines of a value are candidates (no positional selection)",
                   "config._parse_cfg_file_patterns: lines of a file_patterns value are selected by position",
                   f"`{txt[:120]}`: with `{unparse(positional[0]) if positional else ''}` a pattern written on the key line (`README.md = version {{version}}`) is dropped, "
